@@ -176,11 +176,11 @@ theorem C14_returns_steps :
     -- (a)
     (∀ (strict : Bool) (target : Int) (s : Ev) (nAsk : Nat) (rep : List Nat) (rest : List (List Nat)),
       (target < 0 ∨ numEvals strict s < target) →
-      (submitCap { s with semGen := s.semGen + 1 } nAsk).2 = false →
-      (gather (submitCap { s with semGen := s.semGen + 1 } nAsk).1 false 1 rep).2 = none →
-      expired (gather (submitCap { s with semGen := s.semGen + 1 } nAsk).1 false 1 rep).1 = true →
+      (submitCap (askStep s) nAsk).2 = false →
+      (gather (submitCap (askStep s) nAsk).1 false 1 rep).2 = none →
+      expired (gather (submitCap (askStep s) nAsk).1 false 1 rep).1 = true →
       loop strict target s nAsk (rep :: rest) =
-        ((gather (submitCap { s with semGen := s.semGen + 1 } nAsk).1 false 1 rep).1, .timeout)) ∧
+        ((gather (submitCap (askStep s) nAsk).1 false 1 rep).1, .timeout)) ∧
     -- (b)
     (∀ (s : Ev) (i : Nat) (j : Job), s.jobs[i]? = some j → (j.pc = .waiting ∨ j.pc = .cancelling) →
       ∃ s' k r, stepReturn s = some s' ∧ nextReturn s.jobs 0 none = some (k, r) ∧ r ≤ j.ret ∧
